@@ -25,10 +25,16 @@ def EncFrom (c : Chunk) : Nat → Nat → List Bytes → Prop
     c.inds[i]? = some s ∧ c.off + s + cell.length ≤ c.vals.length ∧
       slice c.vals (c.off + s) (c.off + s + cell.length) = cell ∧ EncFrom c (i + 1) (s + cell.length) rest
 
-/-- the chunk holds exactly `cells`: `written_row_count` rows, consecutive in the column's own buffer of `cap` bytes -/
+/-- the chunk holds exactly `cells`: `written_row_count` rows, consecutive in the column's own buffer of `cap` bytes; and
+    it is a column of the staging arrays (`col_idx < number of columns`).
+    The caller establishes the last fact: `read_file_using_fast_csv_reader` calls `import_part(…, i_c, …)` for the `i_c` of
+    `index_map = [csvf_fieldnames.index(k) for k in fields_to_use]` (io/parsers.py), so `i_c < len(csvf_fieldnames)`;
+    `column_offsets = np.zeros(len(csvf_fieldnames) + 1)` and `column_inds = np.zeros((count_columns, …))` with
+    `count_columns = len(header.fieldnames)` of the same header line (`get_file_stat`). -/
 structure Encodes (c : Chunk) (cells : List Bytes) : Prop where
   rows : c.rows = cells.length
   enc : ∃ s0, EncFrom c 0 s0 cells ∧ s0 + (cells.map List.length).sum ≤ c.cap
+  col : c.col < c.ncols
 
 /-- an arbitrary cutting of a column into chunks: chunk `k` holds the cells `cellss[k]` (possibly none) -/
 inductive EncodesAll : List Chunk → List (List Bytes) → Prop
